@@ -118,6 +118,14 @@ pub const EDGE_FENS: &[&str] = &[
     "r3k2r/8/8/8/8/8/8/R3K2R w KQkq - 95 80",
     "r1bq1rk1/pp2ppbp/2np1np1/8/3NP3/2N1BP2/PPPQ2PP/R3KB1R w KQ - 98 3000",
     "8/8/4k3/8/8/3K4/8/7R b - - 99 5990",
+    // frozen armies: one side has not a single pseudo-legal move (every unit blocked by its own men,
+    // by the edge or by an enemy pawn straight ahead) - at the root's reply, or once its last free
+    // pawn has been blocked by the king; the other side moves freely
+    "4brkb/3p1pbp/3P1p1p/5P1P/8/8/4K3/1N6 w - - 0 1",
+    "bkrb4/pbp1p3/p1p1P3/P1P5/8/8/3K4/6N1 w - - 0 1",
+    "4brkb/3p1pbp/3P1p1p/5P1P/8/p7/8/1K6 w - - 0 1",
+    "4brkb/3p1pbp/3P1p1p/5P1P/p7/8/1K6/8 b - - 0 1",
+    "4brkb/3p1pbp/3P1p1p/5P1P/8/8/8/3K4 b - - 0 1",
 ];
 
 /// Full-board positions with heavy mutual tension: long capture chains, deep quiescence.
